@@ -16,7 +16,7 @@ Idioms accepted for each test are listed in the tables / functions below, one co
 """
 import re
 from .common import *
-from .C09 import root_of, agg_def, construction_of, construction_carry, seq_sources, pushes_into, created_empty, fresh_id, open_up, _whole_defs, _callmap, REF_TRANSPARENT
+from .C09 import is_empty_vec_operand, vec_of, root_of, agg_def, construction_of, construction_carry, seq_sources, pushes_into, created_empty, fresh_id, open_up, _whole_defs, _callmap, REF_TRANSPARENT
 
 VIEW = 'norm'
 
@@ -657,22 +657,83 @@ def match_index(a, b, item_bb):
     return found[0] if len({T.expr_str(f, 10) for f in found}) == 1 else None
 
 
-def check_coefficients(ctx, R, body, fn, floops, new_call):
+def term_sites(ctx, body, new_call, dv_pushes, loop_header):
+    """the (id, coefficient) pairs handed to Linear::new, as [(push call, id operand | 'READBACK', coefficient operand)]:
+       * a vector of tuples, each pushed as `(id, c)`;
+       * `ids.zip(coefficients)` where `coefficients` is a vector of pushed values and `ids` reads the ids back from the variables
+         this call has just registered: `self.decision_variables[k..].iter().map(|v| v.id)` with `k = self.decision_variables.len()`
+         taken before the first push (the j-th pushed coefficient then meets the id of the j-th pushed variable).
+    None if neither."""
+    tv = root_of(body, new_call.args[0], SEQ_TRANSPARENT, cross_proj=False)[0]
+    tp = pushes_into(body, tv) if tv is not None else []
+    if tp:
+        out = []
+        for c in tp:
+            ta = agg_def(body, root_of(body, c.args[1])[0], 'tuple')
+            if ta is None or len(ta[1]['rv']['ops']) != 2: return None
+            out.append((c, ta[1]['rv']['ops'][0], ta[1]['rv']['ops'][1]))
+        return out
+    r = root_of(body, new_call.args[0], SEQ_TRANSPARENT)[0]
+    d = _whole_defs(body, r) if r is not None else []
+    if len(d) != 1 or d[0][0] != 'call': return None
+    z = _callmap(body)[d[0][1]]
+    if z.item != 'zip' or len(z.args) != 2: return None
+    vb = root_of(body, z.args[1], SEQ_TRANSPARENT, cross_proj=False)[0]
+    cp = pushes_into(body, vb) if vb is not None else []
+    if not cp: return None
+    # ids read back
+    ra = root_of(body, z.args[0], SEQ_TRANSPARENT)[0]
+    da = _whole_defs(body, ra) if ra is not None else []
+    if len(da) != 1 or da[0][0] != 'call': return None
+    m = _callmap(body)[da[0][1]]
+    if m.item != 'map' or not (m.trait or '').endswith('Iterator') or len(m.args) != 2: return None
+    dc = _whole_defs(body, root_of(body, m.args[1])[0] or -1)
+    cb = ctx.F.bodies.get(dc[0][2]['rv']['adt'][8:]) if len(dc) == 1 and dc[0][0] == 'stmt' and dc[0][2]['rv']['k'] == 'agg' and dc[0][2]['rv']['adt'].startswith('closure:') else None
+    if cb is None: return None
+    rets = [st for b_, st in cb.stmts() if st['dst']['l'] == 0 and not st['dst']['p']]
+    if len(rets) != 1 or rets[0]['rv']['k'] != 'use' or rets[0]['rv']['ops'][0]['k'] not in ('copy', 'move'): return None
+    rp = rets[0]['rv']['ops'][0]['pl']
+    if rp['l'] != 2 or fields_of_place(rp)[-1:] != [(DV, 'id')] and [f for a_, f in fields_of_place(rp)] != ['id']: return None
+    ix = root_of(body, m.args[0], SEQ_TRANSPARENT)[0]
+    di = _whole_defs(body, ix) if ix is not None else []
+    if len(di) != 1 or di[0][0] != 'call': return None
+    ic = _callmap(body)[di[0][1]]
+    # the suffix of self.decision_variables from k:  `&self.decision_variables[k..]`  |  `self.decision_variables.iter().skip(k)`
+    if ic.item not in ('index', 'skip') or len(ic.args) != 2: return None
+    r0, f0, _ = root_of(body, ic.args[0], SEQ_TRANSPARENT)
+    if r0 != 1 or [f for a_, f in f0] != ['decision_variables']: return None
+    if ic.item == 'index':
+        rg = agg_def(body, root_of(body, ic.args[1])[0], 'ops::RangeFrom')
+        if rg is None: return None
+        st_ = root_of(body, rg[1]['rv']['ops'][0])[0]
+    else:
+        st_ = root_of(body, ic.args[1])[0]
+    dl = _whole_defs(body, st_) if st_ is not None else []
+    if len(dl) != 1 or dl[0][0] != 'call': return None
+    ln = _callmap(body)[dl[0][1]]
+    r1, f1, _ = root_of(body, ln.args[0], REF_TRANSPARENT) if ln.args else (None, [], [])
+    if ln.item != 'len' or r1 != 1 or [f for a_, f in f1] != ['decision_variables']: return None
+    # the length is taken before anything is pushed, and every path to the loop passes it
+    after_push = body.reach([x.target for x in dv_pushes if x.target >= 0])
+    if ln.bb in after_push or not body.dominates(ln.bb, loop_header): return None
+    return [(c, 'READBACK', c.args[1]) for c in cp]
+
+
+def check_coefficients(ctx, R, body, fn, floops, tsites):
     """every element pushed onto the vector handed to Linear::new is (_, c) with c = 2^i, except for the last bit
     (i == n - 1, in any spelling) where it is w - 2^i + 1.  The last bit may be a branch inside the loop over 0..n, or a
     peeled copy after a loop over 0..n-1."""
-    tv = root_of(body, new_call.args[0], SEQ_TRANSPARENT, cross_proj=False)[0]
+    if tsites is None:
+        ctx.bad(R + '.coef/values', 'T-BRANCHFX', fn, 'the terms handed to Linear::new are neither pushed as (id, coefficient) nor ids read back zipped with pushed coefficients', body.site()); return
     sites = []
-    for c in (pushes_into(body, tv) if tv is not None else []):
+    for c, idop_, cop_ in tsites:
         lo = next((l for l in sorted(floops, key=lambda l: len(l[4])) if c.bb in l[4]), None)
-        ta = agg_def(body, root_of(body, c.args[1])[0], 'tuple')
-        if ta is None or len(ta[1]['rv']['ops']) != 2:
-            ctx.bad(R + '.coef/values', 'T-BRANCHFX', fn, 'term is not pushed as (id, coefficient)', body.site(c.bb)); return
-        sites.append((c, lo, ta))
+        sites.append((c, lo, cop_))
     lsites = [x for x in sites if x[1] is not None]; psites = [x for x in sites if x[1] is None]
     if len(lsites) != 1 or len(psites) > 1:
         ctx.bad(R + '.coef/values', 'T-BRANCHFX', fn, 'terms are pushed at %d places inside loops and %d outside (expected one loop, at most one peeled bit)' % (len(lsites), len(psites)), body.site()); return
     c, lo, ta = lsites[0]
+    tv = vec_of(body, c.args[0])
     rng = bit_range(body, lo, floops)
     if rng is None:
         ctx.bad(R + '.coef/values', 'T-BRANCHFX', fn, 'terms are not pushed inside a loop over 0..n', body.site(c.bb)); return
@@ -681,8 +742,8 @@ def check_coefficients(ctx, R, body, fn, floops, new_call):
     in_loop = lambda x: any(n_[0] == 'call' and len(n_) > 4 and n_[4] == item_bb for n_ in T.expr_walk(x))
     at_hi = lambda x: canon(body, strip_casts(x), ()) == hi_c
 
-    def classify(ta_, is_index):
-        cr = root_of(body, ta_[1]['rv']['ops'][1])[0]
+    def classify(cop_, is_index):
+        cr = root_of(body, cop_)[0]
         kinds = {}
         for d in (_whole_defs(body, cr) if cr is not None else []):
             terms = linear_terms(def_expr(body, d), 1, lambda x: tree_is_width(body, x, 0))
@@ -975,9 +1036,17 @@ def check(ctx):
     if single:
         for e, k, st in body.ret_assignments():
             if e in single_region and k == 'ok':
-                d = _whole_defs(body, root_of(body, st['rv']['ops'][0])[0])
+                # the Linear without terms and with constant ceil(lower): `Linear::from(c)` / `c.into()`, or what that conversion
+                # builds written out, `Linear { terms: <empty>, constant: c }`
+                rr = root_of(body, st['rv']['ops'][0])[0]
+                d = _whole_defs(body, rr)
                 frm = _callmap(body).get(d[0][1]) if len(d) == 1 and d[0][0] == 'call' else None
-                ctx.check(frm is not None and is_conversion(frm, 'f64', 'v1::Linear') and is_rounded(xexpr(body, frm.args[0]), 'ceil', 'lower'),
+                lit = construction_of(ctx, body, rr, 'v1::Linear')
+                okc = frm is not None and is_conversion(frm, 'f64', 'v1::Linear') and is_rounded(xexpr(body, frm.args[0]), 'ceil', 'lower')
+                if not okc and lit is not None:
+                    co, to = lit.operand('constant'), lit.operand('terms')
+                    okc = co is not None and to is not None and is_rounded(xexpr(body, co), 'ceil', 'lower') and is_empty_vec_operand(body, to)
+                ctx.check(okc,
                           R + '.single/constant-is-lower', 'T-CARRY', fn, 'the constant returned for a single-integer range is not ceil(lower)', body.site(e))
     # ---- atomic
     for what, bi, badexits in T.check_atomic(body, ctx.S, ctx.F):
@@ -1059,18 +1128,23 @@ def check(ctx):
             new = _callmap(body).get(d[0][1]) if len(d) == 1 and d[0][0] == 'call' else None
             precise = False; seen_ids = []
             if new is not None and re.search(r'impl v1::Linear>::new(::<.*>)?$', new.name) and len(new.args) == 2:
-                tv = root_of(body, new.args[0], SEQ_TRANSPARENT, cross_proj=False)[0]
-                tp = pushes_into(body, tv) if tv is not None else []
+                ts_ = term_sites(ctx, body, new, pushes, header)
+                tp = [x[0] for x in ts_] if ts_ else []
                 okp = bool(tp)
-                for c in tp:
-                    ta = agg_def(body, root_of(body, c.args[1])[0], 'tuple')
-                    tid = canon(body, xexpr(body, ta[1]['rv']['ops'][0]), floops) if ta and ta[1]['rv']['ops'] else None
+                readback = bool(ts_) and all(x[1] == 'READBACK' for x in ts_)
+                for c, idop_, cop_ in (ts_ or []):
+                    tid = canon(body, xexpr(body, idop_), floops) if idop_ != 'READBACK' else 'READBACK'
                     seen_ids.append(tid)
                     lt = inner(c.bb)
                     if lt is not None and not T.must_pass(body, lt[2], {lt[1]}, {x.bb for x in tp if x.bb in lt[4]}): okp = False
-                precise = okp and sorted(x or '' for x in seen_ids) == sorted(site_ids) and any('ITEM<' in x for x in site_ids) \
-                    and is_rounded(xexpr(body, new.args[1]), 'ceil', 'lower')
-                check_coefficients(ctx, R, body, fn, floops, new)
+                if readback:
+                    # ids read back from the registered variables: the j-th coefficient must belong to the j-th variable, i.e.
+                    # both are pushed exactly once per iteration of the same loop (no peeled copies)
+                    ids_ok = not peeled and len(looped) == 1 and len(tp) == 1 and inner(tp[0].bb) is loop
+                else:
+                    ids_ok = sorted(x or '' for x in seen_ids) == sorted(site_ids)
+                precise = okp and ids_ok and any('ITEM<' in x for x in site_ids) and is_rounded(xexpr(body, new.args[1]), 'ceil', 'lower')
+                check_coefficients(ctx, R, body, fn, floops, ts_)
             ctx.check(precise, R + '.result/uses-new-ids-and-lower', 'T-CARRY', fn,
                       'the returned Linear is not `Linear::new(terms, ceil(lower))` with every term pushed as (id of the variable of the same bit, _): variable ids %s, term ids %s' % (site_ids, seen_ids), body.site(e))
     loop_must(ctx, R + '.loop/push-every-bit', body, loop, lambda c: c.bb in {x.bb for x in looped}, 'decision_variables.push')
